@@ -209,3 +209,98 @@ pub fn check(c: &Case, known: &Known) -> Outcome {
     }
     out
 }
+
+// ---------------------------------------------------------------------------------------
+// columns whose names differ only in case, carried through a sub-query split. SQLite cannot hold
+// such a table (its column names are case-insensitive), so this family is decided by the binder
+// alone: under every dialect the statement binds and its result columns are exactly the frame.
+
+#[derive(Clone, Debug, Serialize, Deserialize)]
+pub struct CaseVariant {
+    pub table: String,
+    pub n1: String,
+    pub n2: String,
+    pub other: String,
+    pub shape: u8,
+}
+
+const PAIRS: &[(&str, &str)] = &[("id", "ID"), ("key", "Key"), ("é", "É"), ("Mixed", "mixed"), ("aB", "Ab"), ("x_y", "X_Y"), ("Total", "total")];
+
+pub fn gen_case_variant(t: &mut Tape) -> CaseVariant {
+    let (a, b) = *t.pick(PAIRS);
+    let (n1, n2) = if t.chance(1, 2) { (a, b) } else { (b, a) };
+    CaseVariant {
+        table: t.pick(&["t", "table_0", "Tbl", "order"]).to_string(),
+        n1: n1.to_string(),
+        n2: n2.to_string(),
+        other: t.pick(&["x", "Val", "w"]).to_string(),
+        shape: t.choose(5) as u8,
+    }
+}
+
+pub fn program_variant(c: &CaseVariant) -> (String, Vec<String>) {
+    let (t, a, b, x) = (q(&c.table), q(&c.n1), q(&c.n2), q(&c.other));
+    match c.shape {
+        0 => (format!("from {t} | select {{{a}, {b}, {x}}} | take 5 | filter {x} > 1\n"), vec![c.n1.clone(), c.n2.clone(), c.other.clone()]),
+        1 => (
+            format!("from {t} | select {{{a}, {b}, {x}}} | derive {{zw = {x} + 1}} | filter zw > 2 | select {{{b}, {a}, zw}}\n"),
+            vec![c.n2.clone(), c.n1.clone(), "zw".into()],
+        ),
+        2 => (
+            format!("from {t} | select {{{a}, {b}, {x}}} | sort {{{x}}} | take 3 | derive {{zw = {a} + {b}}} | filter zw > 0\n"),
+            vec![c.n1.clone(), c.n2.clone(), c.other.clone(), "zw".into()],
+        ),
+        3 => (
+            format!("from {t} | select {{{a}, {b}, {x}}} | group {{{a}}} (sort {{{x}}} | take 1) | filter {b} > 0\n"),
+            vec![c.n1.clone(), c.n2.clone(), c.other.clone()],
+        ),
+        _ => (
+            format!("from {t} | select {{{b}, {x}, {a}}} | filter {x} > 1 | take 2..4 | derive {{zw = 1}} | filter {a} != {b}\n"),
+            vec![c.n2.clone(), c.other.clone(), c.n1.clone(), "zw".into()],
+        ),
+    }
+}
+
+pub fn check_variant(c: &CaseVariant, known: &Known) -> Outcome {
+    let (src, want) = program_variant(c);
+    let mut out = Outcome::pass();
+    out.key = hash_of(&src);
+    out.nontrivial = true;
+    out.classes.push("case_variant_columns".into());
+    out.sample = Some(json!({"prql": src}));
+    let mut tables = std::collections::HashMap::new();
+    tables.insert(c.table.clone(), vec![c.n1.clone(), c.n2.clone(), c.other.clone()]);
+    let schema = sqlbind::Schema { tables, fold_case: false };
+    let mut compiled = 0;
+    for (dn, d) in DIALECTS {
+        let sql = match util::compile(&src, Some(*d)) {
+            Compiled::Sql(s) => s,
+            Compiled::Err(_) => continue,
+            Compiled::Panic(p) => return Outcome::skip(&format!("compiler_panic {}:{}", p.file, p.line)).class("compiler_panic"),
+        };
+        compiled += 1;
+        let Parsed::Ok(mut b) = sqlbind::bind(&sql, dn, &schema) else { continue };
+        if *dn == "ansi" && sql.contains("_expr_") {
+            continue; // recorded finding C07-ansi-underscore-identifier
+        }
+        let _ = known;
+        b.errors.retain(|e| e != "empty projection");
+        if !b.errors.is_empty() {
+            return Outcome::fail(
+                &format!("emitted SQL does not bind under {dn}: {}", b.errors[0]),
+                json!({"source": src, "dialect": dn, "sql": sql, "binder": b.errors}),
+            );
+        }
+        let got: Vec<String> = b.columns.iter().map(|c| c.clone().unwrap_or_default()).collect();
+        if got != want {
+            return Outcome::fail(
+                &format!("result columns under {dn} are not the frame (names differing only in case)"),
+                json!({"source": src, "dialect": dn, "sql": sql, "frame": want, "result_columns": got}),
+            );
+        }
+    }
+    if compiled == 0 {
+        return Outcome::skip("no dialect produced SQL").class("rejected_by_compiler");
+    }
+    out
+}
